@@ -18,7 +18,9 @@ from dsim.seams import SimClock, SimFile
 
 PROP = "C15"
 TOKEN = re.compile(r"K\d+_\d+z")
-PIECES = ["alpha", "be ta", "<tag>", "a&b", "&amp;", "x>y", "\"q\"", "漢字", "é", "😀", "[x]", "a_b", "1 < 2 && 3 > 2", "tab", "'"]
+PIECES = ["alpha", "be ta", "<tag>", "a&b", "&amp;", "x>y", "\"q\"", "漢字", "é", "😀", "[x]", "a_b", "1 < 2 && 3 > 2", "tab", "'",
+          # text that looks like the placeholders of the HTML page template
+          "{foreground} {stylesheet}", "{code}", "{x} }{"]
 STYLES = ["", "", "bold", "italic red", "underline on blue", "dim #ff8800", "reverse color(120)", "strike bright_green",
           "bold link https://example.org/a?b=1&c=<2>", "link https://e.x/"]
 COLORS = [None, "standard", "256", "truecolor"]
